@@ -9,6 +9,7 @@ from . import wrapcommon as WC
 def run(tier):
     chk = F.Check("C10", tier)
     WC.poo_models(chk, tier)
+    WC.poo_real_tables(chk, tier)
     trs = S.pmap(W.run_wrap, WC.poo_cfgs(tier, 1000000))
     chk.validate("Trace_Wrap.tla", "Trace_Wrap.cfg", trs, "poo", own=["poo."], nontrivial=lambda t: t["learners"] >= 5)
     t = trs[0]
